@@ -23,7 +23,7 @@ type c13params struct {
 }
 
 func init() {
-	report.Register("C13", report.Check{Level: "model_checking", QuickBudget: 150 * time.Second, ThoroughBudget: 40 * time.Minute, Run: runC13})
+	report.Register("C13", report.Check{Level: "model_checking", QuickBudget: 240 * time.Second, ThoroughBudget: 25 * time.Minute, Run: runC13})
 	explore.Register("C13.takeover", func(p string) explore.Harness {
 		var pr c13params
 		json.Unmarshal([]byte(p), &pr)
